@@ -25,7 +25,8 @@ REPO = os.environ.get('VERIF_REPO', '/repo')
 COQ = os.path.join(VERIF, 'coq')
 # evidence of runs against another checkout (VERIF_REPO, used to try seeded changes) is kept apart:
 # the committed evidence always describes /repo itself
-EVID = os.path.join(VERIF, 'evidence') if REPO == '/repo' else os.path.join(VERIF, '.work', 'evidence-alt')
+EVID = (os.path.join(VERIF, 'evidence') if REPO == '/repo' and not os.environ.get('VERIF_SEARCH')
+        else os.path.join(VERIF, '.work', 'evidence-search' if os.environ.get('VERIF_SEARCH') else 'evidence-alt'))
 REPLAYS = os.path.join(EVID, 'replays')
 WORKROOT = os.path.join(VERIF, '.work')
 NPROC = int(os.environ.get('VERIF_JOBS', '16'))
